@@ -1,5 +1,5 @@
 #!/usr/bin/env python3
-"""tools/pws_run.py <c03|c04|c06> <seed> [--tier quick|thorough|search] [--limit N] [--mutant-expect]
+"""tools/pws_run.py <c03|c04|c06> <seed> [--tier quick|full|thorough|search] [--limit N] [--no-proofs]
 
 Stand-alone run of the PLAIN work-steal queue cases (vlib/pwsq.py) for one property flag: generate the
 histories, run them on the real code (harness area `pws`, built against $VERIF_REPO), judge them inside Coq
@@ -25,7 +25,7 @@ def module_for(flag):
     m.AREA = pwsq.AREA
     m.ISOLATE = True
     m.TIMEOUT_MS = pwsq.TIMEOUT_MS
-    m.SHARD_SIZE = 40
+    m.SHARD_SIZE = 20
     m.term = pwsq.term
     return m
 
@@ -36,7 +36,7 @@ def main(argv):
         return 2
     flag = argv[1]
     seed = int(argv[2])
-    tier = "quick"
+    tier = "full"
     limit = None
     skip_proofs = False
     i = 3
